@@ -312,15 +312,9 @@ def fromRecordsWith (arms : List (String × String)) (service : Name) (records :
 def modelFromRecordsArms : List (String × String) :=
   [("A", "ipv4"), ("AAAA", "ipv6"), ("TXT", "attributes-with-a-key"), ("SRV", "port")]
 
-/-- **`InstanceInformation::from_records` is the model's `fromRecords`**: A and AAAA records give
-addresses, SRV records ports, TXT records their attributes except those with an empty key, anything
-else nothing (an arm removed, or the empty-key filter dropped, regenerates other values and this
-fails) -/
-theorem from_records_source (service : Name) (records : List RR) :
-    Mdns.fromRecords service records =
-      fromRecordsWith (Gen.Env.fromRecordsArms.getD modelFromRecordsArms) service records := by
-  have h : Gen.Env.fromRecordsArms.getD modelFromRecordsArms = modelFromRecordsArms := by decide
-  rw [h]
+/-- the model's `fromRecords` is the generic function at the arms the model is written with -/
+theorem from_records_model (service : Name) (records : List RR) :
+    Mdns.fromRecords service records = fromRecordsWith modelFromRecordsArms service records := by
   have hc : ∀ (i : Mdns.Instance) (r : RR), contributes modelFromRecordsArms i r =
       (match r.rdata with
         | .flat 1 [.int a] => { i with ips := Mdns.insertNew i.ips (false, a) }
@@ -337,6 +331,25 @@ theorem from_records_source (service : Name) (records : List RR) :
   first
     | done
     | (funext i r; exact (hc i r).symm)
+
+/-- **`InstanceInformation::from_records` is the model's `fromRecords`**: A and AAAA records give
+addresses, SRV records ports, TXT records their attributes except those with an empty key, anything
+else nothing (an arm removed, or the empty-key filter dropped, regenerates other values and this
+fails; the order in which the source lists its arms does not matter: each is looked up by its type) -/
+theorem from_records_source (service : Name) (records : List RR) :
+    Mdns.fromRecords service records =
+      fromRecordsWith (Gen.Env.fromRecordsArms.getD modelFromRecordsArms) service records := by
+  have a1 : (Gen.Env.fromRecordsArms.getD modelFromRecordsArms).lookup "A" = some "ipv4" := by decide
+  have a2 : (Gen.Env.fromRecordsArms.getD modelFromRecordsArms).lookup "AAAA" = some "ipv6" := by decide
+  have a3 : (Gen.Env.fromRecordsArms.getD modelFromRecordsArms).lookup "TXT" = some "attributes-with-a-key" := by decide
+  have a4 : (Gen.Env.fromRecordsArms.getD modelFromRecordsArms).lookup "SRV" = some "port" := by decide
+  generalize Gen.Env.fromRecordsArms.getD modelFromRecordsArms = arms at a1 a2 a3 a4
+  have hsame : contributes arms = contributes modelFromRecordsArms := by
+    funext i r
+    unfold contributes
+    split <;> simp [a1, a2, a3, a4, modelFromRecordsArms, List.lookup]
+  rw [from_records_model]
+  simp only [fromRecordsWith, hsame]
 
 /-! ### 20. the records an instance is advertised with (simple-mdns) -/
 
